@@ -168,13 +168,17 @@ inductive PStep where
   | fin (p : Player)
   | ev (p : Player) (o : Out)
 
+/-- First statement of `player_step`: put the stream of the previous event
+    back if it has more events (`step_stream(player, player->stream)`).
+    `player->stream` keeps pointing to the (mutated) stream. -/
+def readd (p : Player) : Option Player :=
+  match p.stream with
+  | none => some p
+  | some s => (stepStream p s).map fun r => { r.1 with stream := some r.2.1 }
+
 /-- `player_step` -/
 def playerStep (p : Player) : PStep :=
-  let readd : Option Player :=
-    match p.stream with
-    | none => some p
-    | some s => (stepStream p s).map fun r => { r.1 with stream := some r.2.1 }
-  match readd with
+  match readd p with
   | none => .err
   | some p1 =>
     match popMax sgt p1.heap with
